@@ -288,13 +288,17 @@ def check_request(wire, meth, target_check, headers, payload, chunked_arg, fail)
     the caller meant to send (None: not checkable); target_check(target_bytes) -> problem or None"""
     p = strict_parse(wire)
     if p is None:
-        return fail("unparseable", "the bytes written are not one well-formed HTTP/1.1 request head")
+        return fail("unparseable:empty-method" if meth == "" else "unparseable",
+                    "the bytes written are not one well-formed HTTP/1.1 request head")
     if p["method"] != meth.encode("latin-1", "replace"):
         fail("request-line", f"method on the wire {p['method']!r} != requested {meth!r}")
     prob = target_check(p["target"])
     if prob:
         fail("target", prob)
     keys = [k.lower() for k, _ in headers]
+    for k, v in headers:
+        if v == SKIP and k.lower() not in AUTO:
+            fail("skip-non-skippable", f"SKIP_HEADER on {k!r} was honoured: the requested header line is silently missing")
     want = [(k.encode("latin-1"), v.encode("latin-1").strip(b" \t")) for k, v in headers if v != SKIP]
     got = p["headers"]
     # the caller's header lines are the tail of the header list, exactly and in order
@@ -470,6 +474,10 @@ class C10(Prop):
                 for a in ("", "\r\n", " ", "\x00", "#", "\udc80"):
                     yield {"level": lvl, "meth": "GET", "url": s + a, "headers": [["X-A", "v"]], "body": ["none"],
                            "chunked": False, "bs": 16, "kind": "abs-url"}
+        for lvl in levels:
+            for body in (["none"], ["bytes", hx(b"abc")]):
+                yield {"level": lvl, "meth": "", "url": "/p", "headers": [["X-A", "v"]], "body": body, "chunked": False,
+                       "bs": 16, "kind": "empty-method"}
         # 4. HTTP/2 header validity
         for s in self.hostile_strings(rng, deep):
             for field in ("hname", "hval"):
